@@ -195,7 +195,8 @@ class Model:
             # The library scans REGIONS before PROPS (FieldProps constructor), so region operations
             # of the PROPS section see OPERNUM as modified later in REGIONS: known defect
             for k in self.props_after_opernum:
-                self.A[k].taint.add("regions-before-props")
+                if k in self.A:
+                    self.A[k].taint.add("regions-before-props")
         return a
 
     def has(self, name):
